@@ -133,6 +133,11 @@ func scByzFrames(r *Run) {
 		honest, byz = mp.B, mp.A
 		honestAddr, byzAddr = mp.AddrB, mp.AddrA
 	}
+	// (a tube the application never gets round to reading: see the flood below)
+	floodID := byte(0xF0)
+	if byz == mp.B {
+		floodID |= 1 // the peer's identifiers have its parity
+	}
 	// honest accept loop: every offered tube is read until it ends
 	bgAccepted := make(chan tubes.Tube, 1)
 	first := true
@@ -149,6 +154,10 @@ func scByzFrames(r *Run) {
 				continue
 			}
 			r.Probe("byzantine-tube-accepted")
+			if !t.IsReliable() && t.GetID() == floodID {
+				r.Probe("flooded-tube-accepted-and-left-unread")
+				continue
+			}
 			r.Go(func() {
 				buf := make([]byte, 4096)
 				for {
@@ -237,6 +246,25 @@ func scByzFrames(r *Run) {
 		nFrames = 5 + r.Intn("cfg", 500)
 	}
 	r.SetCfg("frames", nFrames)
+	// a well-formed flood: the peer opens an unreliable tube, sends more datagrams than the tube buffers while
+	// the application does not read it, and then ends the tube
+	if r.Intn("cfg", 5) == 0 {
+		nFlood := []int{990, 1000, 1001, 1100, 2500}[r.Intn("cfg", 5)]
+		n.Inject(byzAddr, honestAddr, []byte{floodID, 0x01, 0, 0, byte(common.PFTube), 0, 0, 0, 0, 0, 0, 0}, 0, "flood-req")
+		time.Sleep(50 * time.Millisecond)
+		for i := 0; i < nFlood; i++ {
+			f := []byte{floodID, 0x00, 0, 8, 0, 0, 0, 0, 0, 0, 0, 0, 'f', 'l', 'o', 'o', 'd', 0, 0, 0}
+			binary.BigEndian.PutUint32(f[8:12], uint32(i+1))
+			n.Inject(byzAddr, honestAddr, f, 0, "flood-data")
+			if i%200 == 199 {
+				time.Sleep(5 * time.Millisecond)
+			}
+		}
+		fin := []byte{floodID, 0x10, 0, 0, 0, 0, 0, 0, 0, 0, 0, 0}
+		binary.BigEndian.PutUint32(fin[8:12], uint32(nFlood+1))
+		n.Inject(byzAddr, honestAddr, fin, 0, "flood-fin")
+		r.CountFault("unread-unreliable-tube-flooded-then-ended", 1)
+	}
 	near := uint32(1)
 	for i := 0; i < nFrames; i++ {
 		if !r.Op("byz") {
